@@ -120,6 +120,9 @@ func runC16(tier string, seed uint64) {
 		newTwin("base-nested-short-first", "bases", []string{"example.com", "s3.example.com"}),
 		newTwin("base-nested-long-first", "bases", []string{"s3.example.com", "example.com"}),
 		newTwin("base-nested-short-host", "bases", []string{"s3.example.com", "example.com"}),
+		// a configured base that is itself "<bucket>.<another base>": as a Host it names that bucket
+		newTwin("base-is-bucket-of-other-base", "bases", []string{"example.com", "bkt.example.com", "b-2.example.com"}),
+		newTwin("base-is-bucket-of-other-base-rev", "bases", []string{"b-2.example.com", "bkt.example.com", "example.com"}),
 		// both options at once (the documented precedence: the bases decide, everything else is path-style)
 		newTwin("both-base1", "both", bases[:1]),
 		newTwin("both-fallback-localhost", "both", bases),
@@ -229,7 +232,7 @@ func runC16(tier string, seed uint64) {
 			switch t.name {
 			case "host":
 				host, path = l.bucket+".s3.example.com", l.hostStyle()
-			case "base-nested-short-host":
+			case "base-nested-short-host", "base-is-bucket-of-other-base", "base-is-bucket-of-other-base-rev":
 				host, path = l.bucket+".example.com", l.hostStyle()
 			case "both-fallback-base-itself":
 				host = "s3.example.com"
